@@ -167,6 +167,30 @@ CHECKS = {
              "not part of the fault model (available behind VERIF_PUBLISH_REORDER=1, see DESIGN). MODEL process bodies by default, REAL "
              "CLI bodies in ~1% of runs. Found two genuine defects on the pinned tree (empty iteration directory; marker-before-outputs "
              "in prospective mode), both repaired by fix: commits in the script."),
+    "C08": dict(
+        engine="gibbssim", design="6.8", category="exploration",
+        technique=TECH + ": the Gibbs sampler stepped under an RNG seam (every draw an observable event served by the simulator), numeric.cholesky and rng.extreme faults, reference conditionals derived by probing the exported prediction function",
+        text="A recording proxy is installed as the sampler's generator (and as numpy's module-level random in the model module), and "
+             "sample_mvn_from_precision is wrapped: every draw becomes an event (block, index, kind, requested parameters). At each "
+             "event the requested parameters are compared with the full conditional computed from the state at that instant: design "
+             "matrices by probing the exported prediction function (affine in one block), prior precisions from the state, sufficient "
+             "statistics from scratch. After every block: cache = from-scratch fitted values, draw counts, precision bounds, intercept; "
+             "per step: documented block order; after an injected Cholesky failure the row is unchanged and the cache consistent; the "
+             "exported sample reproduces fitted values and 1/precision; the multivariate draw is checked algebraically (A A' = Q^-1, m = Q^-1 b).",
+        note="Precondition stated in DESIGN 6.8: no row uses the same non-control treatment in both positions. The oracle checks parameters "
+             "of draws, not samples. Tolerance 1e-4 relative to each quantity's float32 scale (running maximum within a step); the noise "
+             "precision bound is not judged for an empty training set."),
+    "C16": dict(
+        engine="batchsim", design="6.16", category="exploration",
+        technique=TECH + ": the batch loop with simulator-chosen winners (search over selection schedules), function level and select/reveal processes with reload in between; state invariants at every reachable (batch, remaining) state",
+        text="Batches are grown from the empty batch by repeated select_next_plate under the real KPerSamplePlatePolicy (behind a "
+             "recording wrapper); the simulator scripts the scores so that every allowed plate is the winner somewhere (thorough: all "
+             "winners of small screens are walked). At every reached state: allowed is a subset of unobserved non-batch plates; with a "
+             "sample in progress exactly that sample's remaining plates are allowed and at least one is; a sample is opened only with "
+             ">= k plates remaining; at most one incomplete sample per prefix; zero or k plates per sample at multiples of k; an "
+             "unobserved multi-sample plate is refused. The process-level variant passes the batch on the command line and reveals "
+             "each selected plate in between.",
+        note="Scores are simulator-chosen (the scorer is not part of this property). <= 6 samples x <= 6 plates, k <= 4, <= 3k selections."),
 }
 
 NOT_APPLICABLE = {
